@@ -76,7 +76,7 @@ def is_hole(stmt, name=None):
 
 
 # ---------------------------------------------------------------- generic drivers as event automata
-from .lts import Classifier, extract, compare, compile_spec, seq, alt, star, lit
+from .lts import Classifier, extract, method_callee, compare, compile_spec, seq, alt, star, lit
 
 
 class _DriverEvents(Classifier):
@@ -228,7 +228,7 @@ def generic_verdict(ctx, d):
         return _GENERIC[key]
     try:
         layout = fields_tuple_layout(ctx.repo)
-        code = extract(d.node, _DriverEvents(d, layout))
+        code = extract(d.node, _DriverEvents(d, layout), callee=method_callee(ctx.repo, ctx.repo.cls('Packet')) if d.origin == 'generic' else None)
         cmp_ = compare(code, compile_spec(_driver_spec(d.kind)))
         if cmp_[0] == 'foreign':
             raise Undecided('%s does things the driver discipline does not speak about (%s): its event language cannot be compared' % (d.label, ', '.join(cmp_[1][:4])))
